@@ -31,6 +31,7 @@ def checkC03 (l : Line) : Verdict := Id.run do
       return .specDiff s!"run {k}: {what}{tag}: interp={st nf} warm={st wf} cold={st cf}"
     -- cache model: key discipline
     let ip0 := wf.getD 7 0; let bank0 := wf.getD 8 0; let h := wf.getD 9 0; let bt := wf.getD 10 0
+    if h == 3 then return .modelDiff s!"run {k}: after running the block at bank {bank0} ip {ip0} no translation is cached under that key"
     if h != 2 then
       let key := Cache.key (if ip0 < 0x4000 then 0 else bank0) ip0
       match seen.lookup key with
